@@ -1,24 +1,16 @@
-package datas
+package doltdb_test
 
-// Commit-DAG kit shared by the C18 / C19 checks of the `datas` engine: a rapid generator of
-// DAG shapes, the harness' own adjacency-list model (heights, ancestor sets, common
-// ancestors - brute force), and a builder that creates the commits through the real
-// datas.Database entry points.
+// Commit-DAG kit of the `doltdb` engine (C18 / C19 / C44): the same rapid generator of DAG
+// shapes and adjacency-list model as harness/datas/verifdag_test.go (kept textually in sync;
+// the two engines are separate test binaries and vh must not import dolt packages), and a
+// builder that creates the commits through doltdb.DoltDB.
 
 import (
-	"context"
 	"fmt"
 	"math/bits"
-	"sort"
 	"strings"
-	"time"
 
 	"pgregory.net/rapid"
-
-	"github.com/dolthub/dolt/go/store/chunks"
-	"github.com/dolthub/dolt/go/store/hash"
-	"github.com/dolthub/dolt/go/store/types"
-	"github.com/dolthub/dolt/go/zzverif/vh"
 )
 
 // verifDag is the model: parents[i] lists the parent indices (< i) of commit i in order,
@@ -254,146 +246,3 @@ func verifGenDag(t *rapid.T, maxN int) *verifDag {
 	return d
 }
 
-// ---------------------------------------------------------------------------------------
-// building the DAG through the real API
-
-type verifBuilt struct {
-	storage *chunks.TestStorage
-	db      *database
-	addrs   []hash.Hash
-	reopens int
-	// datasets that currently have a head: name -> commit index
-	heads map[string]int
-}
-
-func verifMeta(i int) *CommitMeta {
-	d := CommitDateAt(time.UnixMilli(int64(1000 * (i + 1))))
-	return &CommitMeta{
-		Author:      CommitIdent{Name: "verif", Email: "verif@example.com", Date: d},
-		Committer:   CommitIdent{Name: "verif", Email: "verif@example.com", Date: d},
-		Description: fmt.Sprintf("commit %d", i),
-	}
-}
-
-func verifValue(i int) types.Value { return types.String(fmt.Sprintf("value-%d", i)) }
-
-func (b *verifBuilt) reopen() {
-	b.db = NewDatabase(b.storage.NewViewWithDefaultFormat()).(*database)
-	b.reopens++
-}
-
-func (b *verifBuilt) parentAddrs(d *verifDag, i int) []hash.Hash {
-	var out []hash.Hash
-	for _, p := range d.parents[i] {
-		out = append(out, b.addrs[p])
-	}
-	return out
-}
-
-// verifBuildDag creates every commit of d, choosing a construction path per commit, and
-// re-opens the database at drawn points. Fails the case on any API error.
-func verifBuildDag(t *rapid.T, ctx context.Context, d *verifDag) *verifBuilt {
-	b := &verifBuilt{storage: &chunks.TestStorage{}, heads: map[string]int{}}
-	b.db = NewDatabase(b.storage.NewViewWithDefaultFormat()).(*database)
-	d.how = make([]string, d.n())
-	for i := range d.parents {
-		if i > 0 && rapid.IntRange(0, 9).Draw(t, fmt.Sprintf("c%d.reopen", i)) == 0 {
-			b.reopen()
-			d.how[i] += "R"
-		}
-		opts := CommitOptions{Parents: b.parentAddrs(d, i), Meta: verifMeta(i)}
-		// a dataset whose head is one of the parents (the ordinary caller situation), if any
-		onto := ""
-		names := make([]string, 0, len(b.heads))
-		for name := range b.heads {
-			names = append(names, name)
-		}
-		sort.Strings(names)
-		for _, name := range names {
-			for _, p := range d.parents[i] {
-				if b.heads[name] == p {
-					onto = name
-				}
-			}
-		}
-		path := rapid.IntRange(0, 4).Draw(t, fmt.Sprintf("c%d.path", i))
-		dsName := fmt.Sprintf("refs/heads/b%d", i)
-		if onto != "" && path != 0 {
-			dsName = onto // advance an existing branch whose head is a parent
-		}
-		ds, err := b.db.GetDataset(ctx, dsName)
-		if err != nil {
-			t.Fatalf("GetDataset(%s): %v", dsName, err)
-		}
-		var addr hash.Hash
-		switch path {
-		case 0, 1: // Commit
-			d.how[i] += "c"
-			nds, err := b.db.Commit(ctx, ds, verifValue(i), opts)
-			if err != nil {
-				t.Fatalf("Commit %d onto %s parents %v: %v", i, dsName, d.parents[i], err)
-			}
-			addr, _ = nds.MaybeHeadAddr()
-		case 2: // BuildNewCommit + WriteCommit
-			d.how[i] += "b"
-			cm, err := b.db.BuildNewCommit(ctx, ds, verifValue(i), opts)
-			if err != nil {
-				t.Fatalf("BuildNewCommit %d: %v", i, err)
-			}
-			nds, err := b.db.WriteCommit(ctx, ds, cm)
-			if err != nil {
-				t.Fatalf("WriteCommit %d: %v", i, err)
-			}
-			addr, _ = nds.MaybeHeadAddr()
-			if addr != cm.Addr() {
-				t.Fatalf("commit %d: BuildNewCommit address %s but head after WriteCommit is %s", i, cm.Addr(), addr)
-			}
-		case 3: // CommitWithWorkingSet (head and working set move together)
-			d.how[i] += "w"
-			wsName := "workingSets/" + strings.TrimPrefix(dsName, "refs/")
-			wsDS, err := b.db.GetDataset(ctx, wsName)
-			if err != nil {
-				t.Fatalf("GetDataset(%s): %v", wsName, err)
-			}
-			prev, _ := wsDS.MaybeHeadAddr()
-			wr, err := b.db.WriteValue(ctx, types.String(fmt.Sprintf("working-%d", i)))
-			if err != nil {
-				t.Fatalf("WriteValue: %v", err)
-			}
-			spec := WorkingSetSpec{Meta: &WorkingSetMeta{Name: "verif", Email: "verif@example.com", Description: "ws", Timestamp: uint64(i)}, WorkingRoot: wr, StagedRoot: wr}
-			nds, _, err := b.db.CommitWithWorkingSet(ctx, ds, wsDS, verifValue(i), spec, prev, opts)
-			if err != nil {
-				t.Fatalf("CommitWithWorkingSet %d onto %s: %v", i, dsName, err)
-			}
-			addr, _ = nds.MaybeHeadAddr()
-		default: // Force commit onto a branch whose head need not be a parent
-			d.how[i] += "f"
-			if len(names) > 0 {
-				dsName = names[rapid.IntRange(0, len(names)-1).Draw(t, fmt.Sprintf("c%d.forceOnto", i))]
-				if ds, err = b.db.GetDataset(ctx, dsName); err != nil {
-					t.Fatalf("GetDataset(%s): %v", dsName, err)
-				}
-			}
-			fo := opts
-			fo.Force = true
-			nds, err := b.db.Commit(ctx, ds, verifValue(i), fo)
-			if err != nil {
-				t.Fatalf("forced Commit %d onto %s: %v", i, dsName, err)
-			}
-			addr, _ = nds.MaybeHeadAddr()
-		}
-		if addr.IsEmpty() {
-			t.Fatalf("commit %d: dataset %s has no head after the commit", i, dsName)
-		}
-		for j, a := range b.addrs {
-			if a == addr {
-				t.Fatalf("commit %d got the address of commit %d (%s) although its inputs differ", i, j, addr)
-			}
-		}
-		b.addrs = append(b.addrs, addr)
-		b.heads[dsName] = i
-	}
-	return b
-}
-
-func verifMaxCommits() int { return vh.N(12, 40) }
